@@ -4,10 +4,11 @@ MC = ("Memory::copy(ptr_void|ptr_const_void|unsigned_long_int)", "c_Memory_copy"
 MM = ("Memory::move(ptr_void|ptr_const_void|unsigned_long_int)", "c_Memory_move")
 SEND = ("Socket::send(this|ptr_const_unsigned_char|unsigned_long_int)", "c_Socket_send")
 ERR = ("Socket::getLastError()", "c_Socket_getLastError")
+RECV = ("Socket::recv(this|ptr_unsigned_char|unsigned_long_int|unsigned_long_int)", "c_Socket_recv")
 
 
 def U(name, entry, enforce, reach, **kw):
-    d = dict(name="Server." + name, prop="C13", entry=entry, srcs=SRCS, enforce=(enforce, None), replace=[MC, MM, SEND, ERR],
+    d = dict(name="Server." + name, prop="C13", entry=entry, srcs=SRCS, enforce=(enforce, None), replace=[MC, MM, SEND, ERR, RECV],
              kind="proof", tier="quick", reach=list(reach), timeout=1500, no_native=True, inc_first=["dep/c13"],
              funcs=["Server::Private::ClientImpl::" + name], min_obligations=1)
     d.update(kw)
@@ -19,6 +20,7 @@ UNITS = [
       split=[r"postcondition", r"precondition"], cost=1000, timeout=3000),
     U("write_ready", "h_write_ready", "w_write_ready", ["write_ready.drained", "write_ready.partial", "write_ready.closed"],
       funcs=["Server::Private::run (write-ready branch)"]),
+    U("read", "h_read", "w_client_read", ["read.data", "read.would_block", "read.closed"]),
     U("suspend", "h_suspend", "w_client_suspend", ["suspend.change"]),
     U("resume", "h_resume", "w_client_resume", ["resume.change"]),
 ]
